@@ -846,8 +846,25 @@ func sameRepr(v any, want decimal.Decimal) bool {
 
 // operator guards: Multiply, Divide, Exponent of operators/builtin.go and Mod of functions/builtin.go decide as
 // mul_body / ODiv / pow_body / mod_body of the model do, on boundary inputs; returns the exponent limit found
-func checkOperators(opsFile *ast.File, builtinFile *ast.File) (int, [][2]string) {
+// an integer constant declared in a file of excellent/types (MaxTextLength, MaxRenderSize)
+func intConstant(path string, name string) int64 {
+	f := parseFile(path)
+	in := newInterp(f)
+	e, ok := in.globals[name]
+	if !ok {
+		fatal("%s: constant %s not found", path, name)
+	}
+	in.where = path + " " + name
+	v, ok := in.eval(e, &scope{vars: map[string]any{}}).(int64)
+	if !ok {
+		fatal("%s: %s is not an integer constant", path, name)
+	}
+	return v
+}
+
+func checkOperators(opsFile *ast.File, builtinFile *ast.File, maxText int64) (int, [][2]string) {
 	in := newInterp(opsFile)
+	in.bindings["types.MaxTextLength"] = maxText
 	op := func(name string) func(a, b *xNumber) any {
 		g, ok := in.globals[name]
 		if !ok {
@@ -873,6 +890,40 @@ func checkOperators(opsFile *ast.File, builtinFile *ast.File) (int, [][2]string)
 		}
 	}
 	mul, div, pow := op("Multiply"), op("Divide"), op("Exponent")
+
+	// Concatenate: the limit on the bytes of the text built (OConcat of the model)
+	concat := func(a, b string) (res any) {
+		g, ok := in.globals["Concatenate"]
+		if !ok {
+			fatal("operators/builtin.go: Concatenate not found")
+		}
+		call, ok := g.(*ast.CallExpr)
+		if !ok || len(call.Args) != 1 {
+			fatal("operators/builtin.go: Concatenate is not wrapper(func...)")
+		}
+		fl, ok := call.Args[0].(*ast.FuncLit)
+		if !ok {
+			fatal("operators/builtin.go: Concatenate does not wrap a function literal")
+		}
+		in.where = "operators/builtin.go Concatenate"
+		defer func() {
+			if r := recover(); r != nil {
+				res = fmt.Sprint("PANIC ", r)
+			}
+		}()
+		return in.call(fl, &closure{typ: fl.Type, body: fl.Body, env: &scope{vars: map[string]any{}}}, []any{nil, newXText(a), newXText(b)})
+	}
+	textOf := func(v any) string {
+		if t, ok := v.(*xText); ok {
+			return t.Native()
+		}
+		return "\x00not a text"
+	}
+	mt := int(maxText)
+	as, es := strings.Repeat("a", mt/2), strings.Repeat("é", mt/4) // é is two bytes
+	concatLimit := mt >= 8 && mt <= 100000000 && textOf(concat("ab", "cd")) == "abcd" && len(textOf(concat(as, strings.Repeat("b", mt-mt/2)))) == mt &&
+		isXError(concat(as, strings.Repeat("b", mt-mt/2+1))) && len(textOf(concat(es, strings.Repeat("b", mt-2*(mt/4))))) == mt &&
+		isXError(concat(es, strings.Repeat("b", mt-2*(mt/4)+1))) && isXError(concat("", strings.Repeat("b", mt+1))) && textOf(concat("", "")) == ""
 	tenTo := func(k int) *xNumber { return newXNumber(decimal.New(1, int32(-k))) }
 	one := xnum("1")
 
@@ -899,7 +950,13 @@ func checkOperators(opsFile *ast.File, builtinFile *ast.File) (int, [][2]string)
 	small := L <= 200000 // beyond that the accepted computations below would be long: no limit worth the name
 	half := L / 2
 	mulLimit := small && !isXError(mul(tenTo(half), tenTo(L-half))) && isXError(mul(tenTo(half+1), tenTo(L-half))) &&
-		isXError(mul(tenTo(L+1), one)) && !isXError(mul(xnum("1E"+strconv.Itoa(L+5)), xnum("1E"+strconv.Itoa(L+5)))) // whole numbers: canonical exponent 0
+		isXError(mul(tenTo(L+1), one)) && !isXError(mul(xnum("1E"+strconv.Itoa(half-5)), xnum("1E"+strconv.Itoa(half-5)))) // whole numbers: canonical exponent 0
+	// the digits of the canonical factors add up to at most the same limit (mul_body of the model)
+	sevens := func(k int) *xNumber { return xnum(strings.Repeat("7", k)) }
+	mulDigits := small && !isXError(mul(sevens(half), sevens(L-half))) && isXError(mul(sevens(half+1), sevens(L-half))) &&
+		isXError(mul(xnum("1E"+strconv.Itoa(L)), one)) && !isXError(mul(xnum("1E"+strconv.Itoa(L-2)), one)) && // 10^L has L+1 digits
+		!isXError(mul(xnum("0."+strings.Repeat("7", half)), xnum("7."+strings.Repeat("7", L-half-1)))) && isXError(mul(xnum("0."+strings.Repeat("7", half)), xnum("7."+strings.Repeat("7", L-half)))) &&
+		!isXError(mul(xnum("2.5"+strings.Repeat("0", 2*L)), xnum("4"))) // trailing zeros are not digits of the canonical form
 	mulCanon := sameRepr(mul(xnum("0.10"), xnum("0.10")), decimal.New(1, -2)) && sameRepr(mul(xnum("1E3"), xnum("1E3")), decimal.New(1000000, 0)) &&
 		sameRepr(mul(xnum("0.00"), xnum("5")), decimal.New(0, 0)) && sameRepr(mul(xnum("2.50"), xnum("4.0")), decimal.New(100, -1)) &&
 		small && !isXError(mul(newXNumber(decimal.New(10, int32(-L-1))), one)) // 10 * 10^-(L+1) is 10^-L
@@ -963,7 +1020,7 @@ func checkOperators(opsFile *ast.File, builtinFile *ast.File) (int, [][2]string)
 	modZero := isXError(mod(one, xnum("0"))) && isXError(mod(one, xnum("0.000"))) && !isXError(mod(xnum("7"), xnum("2")))
 
 	return L, [][2]string{
-		{"Multiply.canonical", b(mulCanon)}, {"Multiply.exponent", b(mulLimit)}, {"Divide.zero", b(divZero)}, {"Mod.zero", b(modZero)},
+		{"Concatenate.length", b(concatLimit)}, {"Multiply.canonical", b(mulCanon)}, {"Multiply.exponent", b(mulLimit)}, {"Multiply.digits", b(mulDigits)}, {"Divide.zero", b(divZero)}, {"Mod.zero", b(modZero)},
 		{"Exponent.canonical", b(powCanon)}, {"Exponent.exponent", b(powExp)}, {"Exponent.digits", b(powNeg)}, {"Exponent.fractional", b(powFrac)}, {"Repeat.length", b(repLimit)},
 	}
 }
@@ -1002,7 +1059,9 @@ func main() {
 	regsT, sitesT, dynT, testsFile := analyseRegistry(filepath.Join(*repo, "flows/routers/cases/tests.go"), ws)
 	locals := append(localSites(builtinFile), localSites(testsFile)...)
 	maxPlaces, guarded := checkRounding(builtinFile)
-	maxExp, opGuards := checkOperators(parseFile(filepath.Join(*repo, "excellent/operators/builtin.go")), builtinFile)
+	maxText := intConstant(filepath.Join(*repo, "excellent/types/text.go"), "MaxTextLength")
+	maxRender := intConstant(filepath.Join(*repo, "excellent/types/base.go"), "MaxRenderSize")
+	maxExp, opGuards := checkOperators(parseFile(filepath.Join(*repo, "excellent/operators/builtin.go")), builtinFile, maxText)
 	baseArity := checkBaseArity(parseFile(filepath.Join(*repo, "excellent/functions/wrappers.go")))
 
 	regs := append(regsF, regsT...)
@@ -1082,6 +1141,7 @@ func main() {
 		fmt.Fprintf(&b, "(%q, %s)", g[0], g[1])
 	}
 	b.WriteString("].\n")
+	fmt.Fprintf(&b, "\nDefinition max_text_length_src : Z := %s.\nDefinition max_render_size_src : Z := %s.\n", z(int(maxText)), z(int(maxRender)))
 	fmt.Fprintf(&b, "\nDefinition max_number_exponent_src : Z := %s.\n\nDefinition operator_guards : list (string * bool) := [", z(maxExp))
 	for i, g := range opGuards {
 		if i > 0 {
